@@ -5,6 +5,8 @@
 // sender (additive +1 on an element, or bit flips). Oracle: honest runs validate and open a*b*a;
 // with a fault at least one honest helper must fail (Fp32BitPrime / Fp25519: always; Fp31: counted
 // against a binomial allowance). Also the PRF evaluation path (eval_dy_prf over Fp25519).
+// Adaptive adversaries (end of file): errors built from the opened MAC key of another batch (stream interceptor) and a
+// rushing deviating party that withholds multiplication messages until it has received a share of the same batch's key.
 
 use std::{
     collections::BTreeMap,
@@ -799,6 +801,548 @@ fn verif_c04_opened_key_attack() {
         }
         if rec.want_sample() && idx % 17 == 2 {
             rec.sample(json!({"attack": "opened key of another batch", "case": idx, "attacker": attacker, "records_per_batch": batch, "batches": batches}));
+        }
+    }
+    rec.finish();
+}
+
+// ---------------------------------------------------------------------------------------------
+// rushing adversary: withhold one record's multiplication messages until the MAC key of the SAME batch is known
+// ---------------------------------------------------------------------------------------------
+//
+// Roles (ring A -> R -> L -> A, "right" = +1): the corrupt helper A sends its multiplication messages to its LEFT
+// neighbour L and receives R's; propagate_u_and_w travels to the RIGHT (A -> R -> L -> A); in malicious_reveal every helper
+// sends its right share to the left peer and its left share to the right peer BEFORE it receives anything.
+// R therefore needs nothing from A but A's (u, w) contribution to finish a batch and to put its share of r on the wire
+// towards A; A holds the other two additive shares of r itself. The question decided here by experiment: is there any
+// await in the honest code that keeps R from doing so while L still waits for A's multiplication messages?
+//
+// L and R run the unmodified validator()/upgrade/multiply/validate_record path. A is a deviating party written in this
+// file: it uses the crate's contexts / PRSS / send and receive channels at exactly the gates and record ids of the real
+// code and re-implements the multiplication and accumulator arithmetic, but drives its own message schedule:
+//   per batch: honest upgrades; [a*b], [r*a*b] messages of the records before the target are sent, those of the target
+//   and of the later records of the batch (the channel is an ordered stream) are computed but WITHHELD; R's messages are
+//   received, A's (u, w) computed exactly as the honest code would and sent to R; A then waits for R's share of r on the
+//   RevealR channel (the only thing A "knows" is what arrived on its own receive channels - no interceptor is involved:
+//   the tampered bytes are a function of the received share, so "A knows r when it sends" is a data dependency, not a
+//   scheduling accident of the pull-based test transport); with r in hand it sends the withheld messages, +eps on [a*b]
+//   and +r*eps on [r*a*b] of the target record; the rest of validation (own shares of r, (u,w) from L, check-zero) honest.
+// A real network adversary can do all of this: it only delays and alters its OWN messages and reads messages addressed
+// to it.
+
+#[derive(Clone, Copy, Debug, PartialEq, Eq)]
+enum RushMode {
+    /// the attack
+    Rushing,
+    /// same schedule, eps = 0: only delays (control: must be accepted with the right product)
+    DelayOnly,
+    /// same schedule and eps, but the [r*a*b] error is built from a wrong key (r + 1): control, must be rejected
+    WrongKey,
+}
+
+#[derive(Clone, Debug)]
+struct RushPlan {
+    seed: u64,
+    attacker: usize,
+    batch: usize,
+    batches: usize,
+    target: usize,
+    eps: u64,
+    mode: RushMode,
+    /// honest helpers run all records through one try_join (true) or batch after batch (false)
+    pipelined: bool,
+}
+
+#[derive(Default, Debug)]
+struct RushLog {
+    /// the await A is currently parked on
+    stage: String,
+    events: Vec<String>,
+    tampered: usize,
+    withheld: usize,
+    r_known_before_send: bool,
+    /// per helper: None = did not return (parked when the system went quiescent); Ok((left, right)) = share of the target product
+    results: Vec<Option<Result<(u128, u128), String>>>,
+    expected: u128,
+    prime: u128,
+}
+
+macro_rules! rushing_body {
+    ($name:ident, $attacker_fn:ident, $f:ty) => {
+        async fn $attacker_fn(
+            ctx: crate::protocol::context::MaliciousContext<'_>,
+            inp: Vec<(Replicated<$f>, Replicated<$f>)>,
+            p: RushPlan,
+            log: Arc<Mutex<RushLog>>,
+        ) -> Result<(), Error> {
+            use crate::{
+                helpers::Direction,
+                protocol::{
+                    basics::{check_zero::malicious_check_zero, mul::step::MaliciousMultiplyStep},
+                    context::step::{MaliciousProtocolStep, UpgradeStep, ValidateStep},
+                    prss::SharedRandomness,
+                },
+                secret_sharing::{Vectorizable, replicated::malicious::ExtendableField},
+            };
+            type F = $f;
+            type E = <$f as ExtendableField>::ExtendedField;
+            type Arr = <E as Vectorizable<1>>::Array;
+            fn contrib(a: &Replicated<E>, b: &Replicated<E>) -> E {
+                (a.left() + a.right()) * (b.left() + b.right()) - a.right() * b.right()
+            }
+            fn induced(x: &Replicated<F>) -> Replicated<E> {
+                Replicated::new(x.left().to_extended(), x.right().to_extended())
+            }
+            let stage = |s: &str| log.lock().unwrap().stage = s.to_string();
+            let event = |s: String| log.lock().unwrap().events.push(s);
+
+            let role = ctx.role();
+            let (left, right) = (role.peer(Direction::Left), role.peer(Direction::Right));
+            let count = p.batch * p.batches;
+            let ctx = ctx.set_total_records(TotalRecords::specified(count).unwrap());
+            let proto = ctx.narrow(&MaliciousProtocolStep::MaliciousProtocol);
+            let vctx = ctx.narrow(&MaliciousProtocolStep::Validate).validator_context();
+            let eps_f = F::truncate_from(u128::from(p.eps));
+            let eps_e = E::truncate_from(u128::from(p.eps));
+
+            for b in 0..p.batches {
+                let range = b * p.batch..(b + 1) * p.batch;
+                let has_target = range.contains(&p.target);
+                // state of validator::Malicious::new(ctx, b)
+                let r_share: Replicated<E> = ctx.prss().generate(RecordId::from(3 * b + 2));
+                let mut u: E = ctx.prss().zero(RecordId::from(3 * b));
+                let mut w: E = ctx.prss().zero(RecordId::from(3 * b + 1));
+
+                // ---- upgrades (honest): rx = induced(x) * r, accumulate
+                let mut rx: Vec<[Replicated<E>; 2]> = Vec::new();
+                for (which, name) in ["upgrade_l", "upgrade_r"].into_iter().enumerate() {
+                    let g = proto.narrow("upgrade").narrow(name).narrow(&UpgradeStep);
+                    let ga = g.narrow(&MaliciousMultiplyStep::RandomnessForValidation);
+                    let mut z = Vec::new();
+                    stage(&format!("batch {b}: send {name}"));
+                    for i in range.clone() {
+                        let rid = RecordId::from(i);
+                        let x = induced(if which == 0 { &inp[i].0 } else { &inp[i].1 });
+                        let (pl, pr): (E, E) = g.prss().generate(rid);
+                        let zl = x.left() * r_share.left() + x.left() * r_share.right() + x.right() * r_share.left() + pl - pr;
+                        g.send_channel::<E>(left).send(rid, zl).await?;
+                        z.push((x, zl));
+                    }
+                    stage(&format!("batch {b}: receive {name} from the right neighbour"));
+                    for (k, i) in range.clone().enumerate() {
+                        let rid = RecordId::from(i);
+                        let zr: E = g.recv_channel::<E>(right).receive(rid).await?;
+                        let share = Replicated::new(z[k].1, zr);
+                        let alpha: Replicated<E> = ga.prss().generate(rid);
+                        u += contrib(&alpha, &share);
+                        w += contrib(&alpha, &z[k].0);
+                        if which == 0 {
+                            rx.push([share.clone(), share]);
+                        } else {
+                            rx[k][1] = share;
+                        }
+                    }
+                }
+
+                // ---- MAC multiplication: [a*b] at .../mul, [r*a*b] at .../mul/duplicate_multiply
+                let gm = proto.narrow("mul");
+                let gd = gm.narrow(&MaliciousMultiplyStep::DuplicateMultiply);
+                let ga = gm.narrow(&MaliciousMultiplyStep::RandomnessForValidation);
+                let mut z_ab: Vec<F> = Vec::new();
+                let mut z_rab: Vec<E> = Vec::new();
+                for (k, i) in range.clone().enumerate() {
+                    let rid = RecordId::from(i);
+                    let (a, bb) = (&inp[i].0, &inp[i].1);
+                    let (pl, pr): (F, F) = gm.prss().generate(rid);
+                    z_ab.push(a.left() * bb.left() + a.left() * bb.right() + a.right() * bb.left() + pl - pr);
+                    let (ra, bi) = (&rx[k][0], induced(bb));
+                    let (pl, pr): (E, E) = gd.prss().generate(rid);
+                    z_rab.push(ra.left() * bi.left() + ra.left() * bi.right() + ra.right() * bi.left() + pl - pr);
+                }
+                let first_withheld = if has_target { p.target - range.start } else { p.batch };
+                stage(&format!("batch {b}: send multiplication messages of the records before the target"));
+                for k in 0..first_withheld {
+                    let rid = RecordId::from(range.start + k);
+                    gm.send_channel::<F>(left).send(rid, z_ab[k]).await?;
+                    gd.send_channel::<E>(left).send(rid, z_rab[k]).await?;
+                }
+                if has_target {
+                    log.lock().unwrap().withheld = 2 * (p.batch - first_withheld);
+                    event(format!("batch {b}: withheld [a*b] and [r*a*b] messages of records {}..{} towards L", p.target, range.end));
+                }
+                stage(&format!("batch {b}: receive multiplication messages from the right neighbour"));
+                for (k, i) in range.clone().enumerate() {
+                    let rid = RecordId::from(i);
+                    let ab_r: F = gm.recv_channel::<F>(right).receive(rid).await?;
+                    let rab_r: E = gd.recv_channel::<E>(right).receive(rid).await?;
+                    let ab = Replicated::new(z_ab[k], ab_r);
+                    let rab = Replicated::new(z_rab[k], rab_r);
+                    let alpha: Replicated<E> = ga.prss().generate(rid);
+                    u += contrib(&alpha, &rab);
+                    w += contrib(&alpha, &induced(&ab));
+                }
+
+                // ---- propagate_u_and_w: own contribution to the right neighbour, computed as the honest code would
+                let pctx = vctx.narrow(&ValidateStep::PropagateUAndW).set_total_records(TotalRecords::Indeterminate);
+                stage(&format!("batch {b}: send (u, w) to the right neighbour"));
+                pctx.send_channel::<E>(right).send(RecordId::from(2 * b), u).await?;
+                pctx.send_channel::<E>(right).send(RecordId::from(2 * b + 1), w).await?;
+                event(format!("batch {b}: sent (u, w) to R"));
+                // For experiments with a repaired tree in which every helper also sends a "batch complete" token to its left
+                // neighbour on the propagate gate before r is opened (see known finding C04-rushing-...): the deviating party
+                // sends that token as early as it can, too (VERIF_C04_BARRIER_TOKEN=1). Not used on the unmodified tree.
+                if std::env::var("VERIF_C04_BARRIER_TOKEN").is_ok() {
+                    pctx.send_channel::<E>(left).send(RecordId::from(b), E::ZERO).await?;
+                    event(format!("batch {b}: sent the batch-complete token to L early"));
+                }
+
+                // ---- rushing: R's share of r before anything else
+                let rctx = vctx.narrow(&ValidateStep::RevealR).set_total_records(TotalRecords::Indeterminate);
+                let rid_b = RecordId::from(b);
+                stage(&format!("batch {b}: malicious_reveal of r: waiting for the right neighbour's share while the multiplication messages of record {} are withheld", p.target));
+                let from_right: Arr = rctx.recv_channel::<Arr>(right).receive(rid_b).await?;
+                let r = E::from_array(&from_right) + r_share.left() + r_share.right();
+                event(format!("batch {b}: received R's share of r; r is known to A"));
+
+                // ---- now the withheld messages
+                if has_target {
+                    log.lock().unwrap().r_known_before_send = true;
+                    stage(&format!("batch {b}: send the withheld multiplication messages"));
+                    for k in first_withheld..p.batch {
+                        let rid = RecordId::from(range.start + k);
+                        let (mut m_ab, mut m_rab) = (z_ab[k], z_rab[k]);
+                        if k == first_withheld && p.mode != RushMode::DelayOnly {
+                            let key = if p.mode == RushMode::WrongKey { r + E::ONE } else { r };
+                            m_ab += eps_f;
+                            m_rab += key * eps_e;
+                            log.lock().unwrap().tampered += 2;
+                        }
+                        gm.send_channel::<F>(left).send(rid, m_ab).await?;
+                        gd.send_channel::<E>(left).send(rid, m_rab).await?;
+                    }
+                    event(format!("batch {b}: sent the withheld messages to L ({})", match p.mode {
+                        RushMode::DelayOnly => "unaltered".to_string(),
+                        RushMode::Rushing => format!("record {}: +eps on [a*b], +r*eps on [r*a*b]", p.target),
+                        RushMode::WrongKey => format!("record {}: +eps on [a*b], +(r+1)*eps on [r*a*b]", p.target),
+                    }));
+                }
+
+                // ---- rest of Malicious::validate, honest
+                stage(&format!("batch {b}: send own shares of r"));
+                rctx.send_channel::<Arr>(left).send(rid_b, r_share.right().into_array()).await?;
+                rctx.send_channel::<Arr>(right).send(rid_b, r_share.left().into_array()).await?;
+                stage(&format!("batch {b}: receive the left neighbour's share of r"));
+                let from_left: Arr = rctx.recv_channel::<Arr>(left).receive(rid_b).await?;
+                if from_left != from_right {
+                    return Err(Error::MaliciousRevealFailed);
+                }
+                stage(&format!("batch {b}: receive (u, w) from the left neighbour"));
+                let u_left: E = pctx.recv_channel::<E>(left).receive(RecordId::from(2 * b)).await?;
+                let w_left: E = pctx.recv_channel::<E>(left).receive(RecordId::from(2 * b + 1)).await?;
+                let t = Replicated::new(u_left, u) - &(Replicated::new(w_left, w) * r);
+                stage(&format!("batch {b}: check-zero"));
+                let czctx = vctx.narrow(&ValidateStep::CheckZero).set_total_records(TotalRecords::Indeterminate);
+                if !malicious_check_zero(czctx, rid_b, &t).await? {
+                    return Err(Error::MaliciousSecurityCheckFailed);
+                }
+                event(format!("batch {b}: check-zero passed at A"));
+            }
+            stage("done");
+            Ok(())
+        }
+
+        async fn $name(p: RushPlan, log: Arc<Mutex<RushLog>>, tap: DynStreamInterceptor) {
+            use futures::future::LocalBoxFuture;
+            use crate::secret_sharing::replicated::malicious::ThisCodeIsAuthorizedToDowngradeFromMalicious;
+            type F = $f;
+            let count = p.batch * p.batches;
+            let mut cfg = TestWorldConfig::default();
+            cfg.seed = p.seed;
+            cfg.timeout = None;
+            cfg.stream_interceptor = tap;
+            cfg.gateway_config.active = p.batch.try_into().unwrap();
+            let world = TestWorld::new_with(&cfg);
+            let mut r = VRng::new(p.seed ^ 0xc04d, 11);
+            let prime: u128 = <F as crate::ff::PrimeField>::PRIME.into();
+            let plain: Vec<(F, F)> = (0..count).map(|_| (F::truncate_from(u128::from(r.next()) % prime), F::truncate_from(u128::from(r.next()) % prime))).collect();
+            {
+                let mut l = log.lock().unwrap();
+                l.expected = (plain[p.target].0 * plain[p.target].1).as_u128();
+                l.prime = prime;
+            }
+            let mut inputs: [Vec<(Replicated<F>, Replicated<F>)>; 3] = Default::default();
+            for (a, b) in &plain {
+                let (sa, sb) = (share_field(*a, &mut r), share_field(*b, &mut r));
+                for h in 0..3 {
+                    inputs[h].push((sa[h].clone(), sb[h].clone()));
+                }
+            }
+            let ctxs = world.malicious_contexts();
+            let mut futs: Vec<LocalBoxFuture<'_, ()>> = Vec::new();
+            for (h, (ctx, inp)) in ctxs.into_iter().zip(inputs).enumerate() {
+                let results = Arc::clone(&log);
+                if h == p.attacker {
+                    let (p, log) = (p.clone(), Arc::clone(&log));
+                    futs.push(Box::pin(async move {
+                        let res = catch_fut($attacker_fn(ctx, inp, p, log)).await;
+                        let res = res.and_then(|x| x.map_err(|e| format!("{e:?}"))).map(|()| (0u128, 0u128));
+                        results.lock().unwrap().results[h] = Some(res);
+                    }));
+                    continue;
+                }
+                let p = p.clone();
+                futs.push(Box::pin(async move {
+                    let res = catch_fut(async move {
+                        let ctx = ctx.set_total_records(TotalRecords::specified(count).unwrap());
+                        let v = ctx.validator::<F>();
+                        let m_ctx = v.context();
+                        let mut shares_of_target = None;
+                        let groups: Vec<std::ops::Range<usize>> = if p.pipelined { vec![0..count] } else { (0..p.batches).map(|b| b * p.batch..(b + 1) * p.batch).collect() };
+                        for range in groups {
+                            let out = m_ctx
+                                .try_join(range.clone().map(|i| {
+                                    let ctx = m_ctx.clone();
+                                    let (a, bb) = inp[i].clone();
+                                    async move {
+                                        let rid = RecordId::from(i);
+                                        let (am, bm) = (a, bb).upgrade(ctx.narrow("upgrade"), rid).await?;
+                                        let ab = am.multiply(&bm, ctx.narrow("mul"), rid).await?;
+                                        ctx.validate_record(rid).await?;
+                                        Ok::<_, Error>(ab.x().access_without_downgrade().clone())
+                                    }
+                                }))
+                                .await?;
+                            if range.contains(&p.target) {
+                                shares_of_target = Some(out[p.target - range.start].clone());
+                            }
+                        }
+                        Ok::<_, Error>(shares_of_target.unwrap())
+                    })
+                    .await;
+                    let res = res.and_then(|x| x.map_err(|e| format!("{e:?}"))).map(|s: Replicated<F>| (s.left().as_u128(), s.right().as_u128()));
+                    results.lock().unwrap().results[h] = Some(res);
+                }));
+            }
+            join_all(futs).await;
+        }
+    };
+}
+rushing_body!(rushing_fp32, rushing_attacker_fp32, Fp32BitPrime);
+rushing_body!(rushing_fp31, rushing_attacker_fp31, Fp31);
+
+struct RushOutcome {
+    quiescent: bool,
+    log: RushLog,
+    reconstructed: Option<u128>,
+    /// R's right share == L's left share of the target product
+    honest_sharing_consistent: Option<bool>,
+    /// position in the global delivery (pull) order of: the chunk R -> A on validate/reveal_r that carries the share of
+    /// the target batch's r; the chunk A -> L on .../mul that carries the target record
+    order: (Option<usize>, Option<usize>),
+    gates: Vec<String>,
+}
+
+fn run_rushing(p: &RushPlan, field: &'static str) -> RushOutcome {
+    use std::collections::HashMap;
+    use crate::helpers::{HelperIdentity, in_memory_config::InspectContext};
+    let log = Arc::new(Mutex::new(RushLog { results: vec![None, None, None], ..Default::default() }));
+    let sz = if field == "Fp31" { 1usize } else { 4 };
+    #[derive(Default)]
+    struct Order {
+        seq: usize,
+        offsets: HashMap<(usize, usize, String), usize>,
+        reveal: Option<usize>,
+        mul: Option<usize>,
+        gates: Vec<String>,
+    }
+    let order = Arc::new(Mutex::new(Order::default()));
+    let (attacker, target, target_batch) = (p.attacker, p.target, p.target / p.batch);
+    let tap: DynStreamInterceptor = {
+        let order = Arc::clone(&order);
+        Arc::new(move |ctx: &InspectContext, data: &mut Vec<u8>| {
+            let InspectContext::MpcMessage { source, dest, gate, .. } = ctx else { return };
+            let ids = [HelperIdentity::ONE, HelperIdentity::TWO, HelperIdentity::THREE];
+            let src = ids.iter().position(|i| i == source).unwrap();
+            let dst = ids.iter().position(|i| i == dest).unwrap();
+            let g = gate.as_ref().to_string();
+            let mut o = order.lock().unwrap();
+            o.seq += 1;
+            let seq = o.seq;
+            let start = *o.offsets.get(&(src, dst, g.clone())).unwrap_or(&0);
+            let end = start + data.len();
+            o.offsets.insert((src, dst, g.clone()), end);
+            let covers = |rec: usize| start <= rec * sz && (rec + 1) * sz <= end;
+            if src == (attacker + 1) % 3 && dst == attacker && g.ends_with("validate/reveal_r") && covers(target_batch) {
+                o.reveal = Some(seq);
+            }
+            if src == attacker && dst == (attacker + 2) % 3 && g.ends_with("/mul") && covers(target) {
+                o.mul = Some(seq);
+            }
+            if o.gates.len() < 64 && !o.gates.contains(&g) {
+                o.gates.push(g);
+            }
+        })
+    };
+    let (pp, ll) = (p.clone(), Arc::clone(&log));
+    let out = vlib::run_paused(Duration::from_secs(120), async move {
+        match field {
+            "Fp31" => rushing_fp31(pp, ll, tap).await,
+            _ => rushing_fp32(pp, ll, tap).await,
+        }
+    });
+    let log = std::mem::take(&mut *log.lock().unwrap());
+    let o = std::mem::take(&mut *order.lock().unwrap());
+    let (rr, ll) = ((p.attacker + 1) % 3, (p.attacker + 2) % 3);
+    let (reconstructed, consistent) = match (log.results.get(rr), log.results.get(ll)) {
+        (Some(Some(Ok(sr))), Some(Some(Ok(sl)))) if log.prime > 0 => (Some((sr.0 + sr.1 + sl.1) % log.prime), Some(sr.1 == sl.0)),
+        _ => (None, None),
+    };
+    RushOutcome { quiescent: matches!(out, Paused::Quiescent), log, reconstructed, honest_sharing_consistent: consistent, order: (o.reveal, o.mul), gates: o.gates }
+}
+
+fn rush_verdicts(o: &RushOutcome) -> Vec<String> {
+    o.log.results.iter().map(|r| match r {
+        None => "did-not-return".to_string(),
+        Some(Ok(_)) => "Ok".to_string(),
+        Some(Err(e)) => format!("Err({})", e.chars().take(80).collect::<String>()),
+    }).collect()
+}
+
+#[test]
+fn verif_c04_rushing_attack() {
+    let env = vlib::env();
+    let mut rec = Recorder::new("C04", "verif_c04_rushing_attack");
+    // 81 combinations of (attacker, records per batch, position of the target in its batch, number of batches)
+    let cases = env.pick(81, 486);
+    let replay = env.replay.as_ref().and_then(|p| std::fs::read_to_string(p).ok()).and_then(|s| serde_json::from_str::<Value>(&s).ok())
+        .and_then(|v| v["witness"]["case"].as_u64()).map(|c| c as usize);
+    let loud = std::env::var("VERIF_C04_PRINT").is_ok();
+    for idx in 0..cases {
+        if let Some(c) = replay {
+            if c != idx {
+                continue;
+            }
+        } else if !env.mine(idx) {
+            continue;
+        }
+        let mut r = VRng::new(env.seed ^ 0xc04c, idx as u64);
+        let attacker = idx % 3;
+        let batch = [2usize, 4, 16][(idx / 3) % 3];
+        let pos_class = (idx / 9) % 3;
+        let batches = 1 + (idx / 27) % 3;
+        let pos = match pos_class { 0 => 0, 1 => batch / 2, _ => batch - 1 };
+        let target_batch = r.below(batches as u64) as usize;
+        let target = target_batch * batch + pos;
+        let field: &'static str = if (idx / 81) % 2 == 1 || r.below(6) == 0 { "Fp31" } else { "Fp32BitPrime" };
+        let prime: u64 = if field == "Fp31" { 31 } else { 4_294_967_291 };
+        let eps = 1 + r.below((prime - 1).min(1 << 20));
+        let pipelined = r.bool();
+        let seed = env.seed.wrapping_mul(4111) ^ idx as u64;
+        let base = RushPlan { seed, attacker, batch, batches, target, eps, mode: RushMode::Rushing, pipelined };
+        let control = match idx % 3 { 0 => Some(RushMode::DelayOnly), 1 if field != "Fp31" => Some(RushMode::WrongKey), _ => None };
+        for mode in [Some(RushMode::Rushing), control].into_iter().flatten() {
+            let p = RushPlan { mode, ..base.clone() };
+            let o = run_rushing(&p, field);
+            rec.eval();
+            let verdicts = rush_verdicts(&o);
+            let (hr, hl) = ((attacker + 1) % 3, (attacker + 2) % 3);
+            let honest_ok = [hr, hl].iter().all(|h| matches!(o.log.results[*h], Some(Ok(_))));
+            let honest_err = [hr, hl].iter().any(|h| matches!(o.log.results[*h], Some(Err(_))));
+            let witness = json!({"case": idx, "mode": format!("{mode:?}"), "field": field, "attacker": attacker, "records_per_batch": batch, "batches": batches,
+                "target_record": target, "eps": eps, "honest_helpers_pipelined": pipelined, "world_seed": seed,
+                "verdicts": verdicts, "reconstructed": o.reconstructed.map(|v| v.to_string()), "expected": o.log.expected.to_string(),
+                "honest_sharing_consistent": o.honest_sharing_consistent, "quiescent": o.quiescent, "attacker_stage": o.log.stage,
+                "attacker_events": o.log.events, "delivery_order": {"r_share_R_to_A": o.order.0, "mul_chunk_A_to_L": o.order.1}});
+            if loud {
+                println!("C04-RUSH case {idx} {mode:?} {field} A={attacker} batch={batch}x{batches} target={target} eps={eps} pipelined={pipelined}: verdicts={verdicts:?} reconstructed={:?} expected={} consistent={:?} quiescent={} order(reveal_r R->A, mul A->L)={:?} stage={:?}\n   events={:?}\n   gates={:?}",
+                    o.reconstructed, o.log.expected, o.honest_sharing_consistent, o.quiescent, o.order, o.log.stage, o.log.events, if idx == 0 { o.gates.clone() } else { vec![] });
+            }
+            // the attacker never got R's share of r while it withheld its messages: the barrier exists
+            let blocked_before_r = o.log.withheld > 0 && !o.log.r_known_before_send;
+            if blocked_before_r {
+                if o.quiescent && o.log.stage.contains("waiting for the right neighbour's share") {
+                    // which await blocks: A is parked on the receive of R's share on validate/reveal_r, i.e. R has not reached
+                    // (or not passed) the sends of malicious_reveal although it has A's (u, w); L is parked on A's messages
+                    rec.seen("rushing_blocked_at", format!("A: receive(validate/reveal_r) from R; verdicts {verdicts:?}"));
+                    if mode == RushMode::Rushing {
+                        rec.count("rushing_attack_not_mountable");
+                        rec.count("rushing_attack_decided");
+                        rec.distinct(&("rush-blocked", attacker, batch, pos_class, batches, field));
+                    } else {
+                        rec.count("rushing_control_not_mountable");
+                        rec.count("rushing_controls_decided");
+                    }
+                } else {
+                    rec.count("rushing_schedule_stalled_elsewhere");
+                    rec.seen("rushing_stalled_at", o.log.stage.clone());
+                    rec.inconclusive(format!("case {idx} {mode:?}: the deviating party stalled at '{}' (verdicts {verdicts:?})", o.log.stage));
+                }
+                continue;
+            }
+            if o.log.withheld == 0 {
+                rec.inconclusive(format!("case {idx} {mode:?}: the deviating party never reached the target batch (stage '{}', verdicts {verdicts:?})", o.log.stage));
+                continue;
+            }
+            // data dependency holds by construction; the delivery order seen by a passive tap must agree with it
+            if let (Some(rv), Some(ml)) = o.order {
+                if rv > ml {
+                    rec.inconclusive(format!("case {idx}: L pulled the target chunk before A received R's share of r (tap order {rv} > {ml})"));
+                    continue;
+                }
+                rec.count("rushing_r_share_delivered_before_target_chunk");
+            }
+            match mode {
+                RushMode::DelayOnly => {
+                    if honest_ok && matches!(o.log.results[attacker], Some(Ok(_))) && o.reconstructed == Some(o.log.expected) {
+                        rec.count("rushing_delay_only_controls_accepted");
+                        rec.count("rushing_controls_decided");
+                    } else {
+                        rec.violation("an execution in which one helper only delays some multiplication messages until it has received a share of r did not validate with the right product",
+                            json!({"kind": "honest_rejected", "attack": "rushing_delay_only"}), witness);
+                    }
+                }
+                RushMode::WrongKey => {
+                    if o.log.tampered != 2 {
+                        rec.count("rushing_attack_not_applied");
+                    } else if honest_err {
+                        rec.count("rushing_wrong_key_controls_detected");
+                        rec.count("rushing_controls_decided");
+                    } else if honest_ok && o.reconstructed != Some(o.log.expected) {
+                        rec.violation("errors eps / (r+1)*eps on the [a*b] / [r*a*b] messages of one record were accepted by both honest helpers",
+                            json!({"kind": "tamper_accepted", "attack": "rushing_wrong_key"}), witness);
+                    } else {
+                        rec.count("rushing_wrong_key_stalled");
+                        rec.seen("rushing_stalled_at", o.log.stage.clone());
+                    }
+                }
+                RushMode::Rushing => {
+                    if o.log.tampered != 2 {
+                        rec.count("rushing_attack_not_applied");
+                    } else if honest_err {
+                        rec.count("rushing_attack_detected");
+                        rec.count("rushing_attack_decided");
+                        rec.distinct(&("rush-detected", attacker, batch, pos_class, batches, field));
+                    } else if honest_ok && o.reconstructed != Some(o.log.expected) {
+                        rec.count("rushing_attack_accepted");
+                        rec.count("rushing_attack_decided");
+                        rec.distinct(&("rush-accepted", attacker, batch, pos_class, batches, field));
+                        rec.seen("rushing_accepted_configs", format!("{field}:A{attacker}:{batch}x{batches}:pos{pos_class}"));
+                        rec.violation(
+                            "a helper that withholds one record's multiplication messages until it has received a share of the SAME batch's MAC key r, then sends them with errors eps / r*eps, is accepted: both honest helpers validate and hold a wrong product",
+                            json!({"kind": "rushing_tamper_accepted", "schedule": "mul_messages_withheld_until_r_share_received", "attacker": attacker, "records_per_batch": batch}),
+                            witness,
+                        );
+                    } else if honest_ok {
+                        rec.count("rushing_attack_without_effect");
+                    } else {
+                        rec.count("rushing_attack_stalled");
+                        rec.seen("rushing_stalled_at", o.log.stage.clone());
+                    }
+                }
+            }
+        }
+        if rec.want_sample() && idx % 13 == 4 {
+            rec.sample(json!({"attack": "rushing: multiplication messages withheld until the batch's r is known", "case": idx, "attacker": attacker, "records_per_batch": batch, "batches": batches, "target": target, "field": field}));
         }
     }
     rec.finish();
